@@ -141,28 +141,36 @@ def covLoop (u : UncIn) (ordmax ii : Nat) (OO : Mat Rat) (e : EigRec) :
     covLoop u ordmax ii OO e rest
       (setCell T.1 jj ii (qabs (Unc.var00 U)), setCell T.2 jj ii (qabs (var10 U)))
 
+/-- the record of a call that was never made (`recs` shorter than the loop) -/
+def EigRec.empty : EigRec := ⟨[], ⟨0, 0, fun _ _ => 0⟩, ⟨0, 0, fun _ _ => 0⟩, [], [], []⟩
+
+/-- the uncertainty block of pass `k` (order `ii`, `n = len(lam_c)`) on the two covariance tables;
+    nothing happens without `calc_unc` -/
+def covStep (unc : Option UncIn) (ordmax k ii : Nat) (e : EigRec) (n : Nat)
+    (FC XC : Option (Mat NR)) : Option (Mat NR) × Option (Mat NR) :=
+  match unc, FC, XC with
+  | some u, some F, some X =>
+    let P := covLoop u ordmax ii (u.OO.getD k ⟨0, 0, fun _ _ => 0⟩) e (List.range n) (F, X)
+    (some P.1, some P.2)
+  | _, _, _ => (FC, XC)
+
 /-- one pass of `for ii in trange(1, ordmax + 1, step)`, `k` the number of the pass -/
 def ssiStep (inp : SsiIn) (T : SsiTables) (k ii : Nat) : Except String SsiTables :=
   match inp.AA[ii]?, inp.CC[ii]? with
   | none, _ => .error "IndexError"           -- A = AA[ii]
   | _, none => .error "IndexError"           -- C = CC[ii]
   | some _, some C =>
-    let e := inp.recs.getD k ⟨[], ⟨0, 0, fun _ _ => 0⟩, ⟨0, 0, fun _ _ => 0⟩, [], [], []⟩
+    let e := inp.recs.getD k EigRec.empty
     let o := ac2mp C e inp.twoPi
     if T.fn.c ≤ ii then .error "IndexError"                 -- Fn[: len(fn), ii] = fn
     else if T.fn.r < o.fn.length then .error "ValueError"   -- … could not broadcast
     else if C.r ≠ T.phi.d then .error "ValueError"          -- Phi[: len(fn), ii, :] = phi
     else
-      let T1 : SsiTables :=
-        { T with fn := setCol T.fn ii o.fn.length o.fn, xi := setCol T.xi ii o.fn.length o.xi,
-                 phi := setCol3 T.phi ii o.fn.length o.phi,
-                 lam := setCol T.lam ii o.fn.length (o.lamc.map toCQ) }
-      match inp.unc, T1.fnCov, T1.xiCov with
-      | some u, some FC, some XC =>
-        let OO := u.OO.getD k ⟨0, 0, fun _ _ => 0⟩
-        let (FC', XC') := covLoop u inp.ordmax ii OO e (List.range o.lamc.length) (FC, XC)
-        .ok { T1 with fnCov := some FC', xiCov := some XC' }
-      | _, _, _ => .ok T1
+      let cv := covStep inp.unc inp.ordmax k ii e o.lamc.length T.fnCov T.xiCov
+      .ok { T with fn := setCol T.fn ii o.fn.length o.fn, xi := setCol T.xi ii o.fn.length o.xi,
+                   phi := setCol3 T.phi ii o.fn.length o.phi,
+                   lam := setCol T.lam ii o.fn.length (o.lamc.map toCQ),
+                   fnCov := cv.1, xiCov := cv.2 }
 
 def ssiLoop (inp : SsiIn) : List Nat → Nat → SsiTables → Except String SsiTables
   | [], _, T => .ok T
